@@ -607,6 +607,62 @@ class Hist(Scenario):
             self.inconclusive = "could not finish the cherry-pick sequence"
         return "done"
 
+    def op_cherry_pick_refused_command_while_stopped(self):
+        """`git cherry-pick C1 C2` stops on a conflict in a file only people touched; while it is stopped the user types another
+        `git cherry-pick <commit>` (git refuses: a cherry-pick is already in progress - a failing operation, which must leave notes
+        and pending attribution exactly as they were), then resolves and runs `git cherry-pick --continue`."""
+        rng = self.rng
+        tr = [x for x in self.files if x in self.tracked() and self.read(x)]
+        if len(tr) < 2:
+            return "skipped"
+        base_branch = self.current_branch() or "main"
+        other = self.head()
+        src = self.new_branch_name("cr")
+        hf = rng.choice(tr)
+        others = [x for x in tr if x != hf]
+        hl = self.read(hf)
+        self.g("checkout", "-q", "-b", src)
+        n = rng.choice([1, 2, 2])
+        l2 = list(hl); l2[0] = self.fresh("human", hostile=False); self.write(hf, l2)
+        self.do_edit(author=rng.choice(self.sessions), f=rng.choice(others), kinds=["ins"])
+        self.commit_all("cr1: AI edit + a person's change of the first line of another file")
+        if n == 2:
+            self.do_edit(author=rng.choice(self.sessions), f=rng.choice(others), kinds=["ins"])
+            self.commit_all("cr2: AI edit")
+        # an unrelated commit with agent lines, which the refused command names
+        self.g("checkout", "-q", "-b", self.new_branch_name("cz"), base_branch)
+        self.do_edit(author=rng.choice(self.sessions), f=rng.choice(others), kinds=["ins"])
+        self.commit_all("cz: unrelated AI commit")
+        unrelated = self.head()
+        self.g("checkout", "-q", base_branch)
+        l3 = list(hl); l3[0] = self.fresh("human", hostile=False); self.write(hf, l3)
+        self.commit_all("upstream changes the same first line")
+        if n == 2:
+            self.g("cherry-pick", src + "~1", src)
+        else:
+            self.g("cherry-pick", src)
+        self.ops.append("cherry-pick:refused-command-while-stopped:%d" % n)
+        if "CHERRY_PICK_HEAD" not in self.in_progress():
+            return "no-conflict"
+        before = (self.notes_digest(), self.pending_digest())
+        p = self.g("cherry-pick", unrelated)
+        if p.rc == 0:
+            self.inconclusive = "git accepted a second cherry-pick while one was stopped"
+            return "odd"
+        after = (self.notes_digest(), self.pending_digest())
+        self.stats["noop_ops_compared"] += 1
+        if before[0] != after[0]:
+            self.violation("C02/notes-changed-by-noop", op="refused cherry-pick while another is stopped")
+        if before[1] != after[1]:
+            self.violation("C02/pending-changed-by-noop", op="refused cherry-pick while another is stopped", pending=self.pending_effective())
+        self.resolve_conflicts(how=rng.choice(["ours", "theirs"]))
+        self.g("-c", "core.editor=true", "cherry-pick", "--continue")
+        seq_dir = os.path.join(self.gitdir(), "sequencer")
+        if self.in_progress() or os.path.isdir(seq_dir):
+            self.g("cherry-pick", "--abort")
+            self.inconclusive = "could not finish the cherry-pick sequence"
+        return "done"
+
     def op_squash_merge(self):
         rng = self.rng
         base_branch = self.current_branch() or "main"
